@@ -154,9 +154,11 @@ CLAIMED["C14"] = dict(
     text="Lean 4 theorems: on documents whose elements have either child nodes or text, the tree produced by the blank-stripping "
     "parser does not depend on the indentation (any scheme of blank strings, any depth; C14_strip_reindent); the table deciding "
     "when _diff strips (no formatter, WS_TAGS / WS_BOTH strip; WS_NONE / WS_TEXT and the CLI's -w do not; C14_flag_table); without "
-    "stripping the re-indented tree differs (C14_nostrip_differs). PARTIAL: the composition with 'equal trees <=> empty script' and "
-    "the XML formatter's markup-free output are decided per run by the oracle over the 13-row formatter x flag table through "
-    "diff_texts and diff_files; libxml2's blank-node heuristic is modelled and compared with the parser on every run.",
+    "stripping the re-indented tree differs (C14_nostrip_differs); composed with C03: the stripped parses of a document and of its "
+    "re-indented version get the empty script in all three match modes, the unstripped ones a non-empty script whenever the "
+    "root's indentation changed (C14_stripped_reindent_empty_script, C14_unstripped_reindent_nonempty_script). PARTIAL: the XML "
+    "formatter's markup-free output is decided per run by the oracle over the 13-row formatter x flag table through diff_texts "
+    "and diff_files; libxml2's blank-node heuristic is modelled and compared with the parser on every run.",
     note="Trusted: Lean kernel and standard axioms; the model of remove_blank_text for the property's document class is validated "
     "against lxml on every run, not proved; file I/O observed.",
     technique="Lean 4 proof (structural induction on the document; decision table by decide) + correspondence with the parser + table oracle",
